@@ -178,7 +178,6 @@ func init() {
 	}
 }
 
-
 func onceDone(st structure) bool {
 	switch d := st[0].(type) {
 	case structure: // atomic.Uint32{_ noCopy, v uint32}
